@@ -67,6 +67,16 @@ def bogoliubov(name, p, m, hbar):
         U = [[half * (ein - 1) * eex, half * i * (ein + 1)],
              [half * i * (ein + 1) * eex, half * (O - ein)]]
         return U, [[Z, Z], [Z, Z]], [Z, Z]
+    if name == "sMZgate":
+        # documented (class comment / Bell-Walmsley): local phase shifts R(phi_in - pi/2), R(phi_ex - pi/2) between two
+        # 50-50 beamsplitters BS(pi/4, pi/2) = [[1, i], [i, 1]] / sqrt(2)
+        pin, pex = p
+        a, b = expi(m, pin - np.pi / 2), expi(m, pex - np.pi / 2)
+        half = SC.lift(0.5)
+        i = SC.lift(1j)
+        U = [[half * (a - b), half * i * (a + b)],
+             [half * i * (a + b), half * (b - a)]]
+        return U, [[Z, Z], [Z, Z]], [Z, Z]
     raise Undecided(f"no documented Bogoliubov action for {name}")
 
 
